@@ -90,7 +90,7 @@ def run(ctx, report: Report) -> None:
     report.analysed['fallback_edges'] = sorted(set(map(str, cg.fallback_edges)))[:20]
 
     # ---- R1 ----------------------------------------------------------------------------------------------
-    r1 = report.rule('C16-R1', 'no import-time dereference of a bs4 name that is not bound yet', floor=6)
+    r1 = report.rule('C16-R1', 'no import-time dereference of a bs4 name that is not bound yet', floor=4)
 
     def bs4_aliases(mod):
         """local name -> bs4 module path it denotes ('bs4', 'bs4.element')."""
@@ -194,7 +194,7 @@ def run(ctx, report: Report) -> None:
     report.analysed['import_time_statements'] = total_nodes
 
     # ---- R2 ----------------------------------------------------------------------------------------------
-    r2 = report.rule('C16-R2', 'module-level imports inside the package are acyclic', floor=5)
+    r2 = report.rule('C16-R2', 'module-level imports inside the package are acyclic', floor=3)
     graph = {}
     for mn, mod in src.mods.items():
         deps = set()
@@ -222,7 +222,7 @@ def run(ctx, report: Report) -> None:
             dfs(m, [m])
 
     # ---- R3 ----------------------------------------------------------------------------------------------
-    r3 = report.rule('C16-R3', 'importing has no visible effect', floor=3)
+    r3 = report.rule('C16-R3', 'importing has no visible effect', floor=7)
     effect_calls = {'print', 'warnings.warn', 'warn', 'warn_deprecated', 'util.warn_deprecated', 'sys.stdout.write',
                     'sys.stderr.write', 'logging.warning', 'logging.info', 'logging.basicConfig', 'logging.error',
                     # process-wide state other programs can observe after `import soupsieve`
